@@ -11,6 +11,7 @@ are used for the correspondence only (the property speaks about symbols)."""
 import io
 import re
 
+import random
 from core import *
 from enc import *          # segno, consts, matrix_str …
 import vecparse
@@ -416,6 +417,7 @@ def run_C10(tier, rnd, st, res):
     # whole documents against the document models (Model/SvgDoc.lean, Model/Tex.lean, Model/VectorDocs.lean)
     import vecdocs
     vecdocs.correspond_c10_docs(docs, pool, rnd, tier, st, res)
+    multicolour_and_histories(tier, rnd, st, res)
     res.rule = ('documents written by the real serialisers for symbols of %d sizes (Micro M1 … version 40) x kinds svg/eps/pdf/tex x scale cycling through '
                 '1, 2, 10, 0.5, 0.25, 1.5, 3.3, 7.25 (+ extra values) x border 0..6/None x colour forms (names, #hex, tuples, float tuples, alpha, None) x '
                 'format options; non-trivial = the judge interpreted the whole document and found every module painted as requested; distinct by '
@@ -423,6 +425,64 @@ def run_C10(tier, rnd, st, res):
     for d in docs[:3] + docs[-2:]:
         res.samples.append(dict(call=d.call()[:300], judge=(d.judge or d.exc or '')[:120]))
     res.notes.append('synthetic matrices (entirely light/dark rows, rows starting with a light module) are compared with the model only')
+
+
+def _inline_hist(args):
+    out = []
+    for content, kw, call_kw in args:
+        q = segno.make(content, **kw)
+        try:
+            out.append(('ok', q.svg_inline(**call_kw)))
+        except Exception as ex:  # noqa
+            out.append(('exc', type(ex).__name__))
+    return out
+
+
+def _inline_one(arg):
+    return _inline_hist([arg])[0]
+
+
+def multicolour_and_histories(tier, rnd, st, res):
+    """(1) SVG with per-type colours (several paths; transparent types next to coloured ones): every module judged by the Lean spec
+    (`c11c`) and the path elements compared with the document model — the dark modules, and only they, must be painted also then;
+    (2) `svg_inline` call histories (a refused call, then an accepted one) and the vector serialisers under the deterministic
+    scheduler against fresh-process references"""
+    import multiprocessing
+    import raster
+    import p_raster
+    import vecdocs
+    syms = raster.Sym(rnd)
+    cases = [c for c in raster.gen_c11(rnd, syms, 'quick') if c.fmt == 'svg']
+    extra = []
+    for i, opt in enumerate(['finder_dark', 'data_dark', 'timing_dark', 'alignment_dark', 'version_dark', 'format_dark', 'dark_module']):
+        v = raster.ALL_VERSIONS[(5 * i + 9) % len(raster.ALL_VERSIONS)]
+        q, mk = syms.get(v, 0)
+        for kw in ({opt: 'red'}, {opt: 'red', 'separator': None, 'quiet_zone': None}, {opt: '#12c', 'light': 'white', 'data_light': None}):
+            extra.append(raster.RCase(v, q, mk, 'svg', dict(kw, border=rnd.choice([0, 1, None])), 'multicolour-with-transparent'))
+    for c in extra:
+        c.cmd = 'c11c'
+    cases += extra
+    before = len(res.violations)
+    p_raster.judge_cases(cases, st, res, 'C10', known=lambda v, c: 'D8' if v == 'd8' else None)
+    # D8 (the one module of C11's recorded finding) is not a C10 matter
+    res.violations[before:] = [v for v in res.violations[before:] if v.get('known_id') != 'D8']
+    vecdocs.correspond_c11_docs(cases, rnd, syms, 'quick', st, res)
+    p_raster.concurrency_pass(cases + [c for c in raster.gen_c09(rnd, syms, 'quick') if c.fmt in ('svg', 'eps', 'pdf', 'tex')][:0], random.Random(rnd.random()), res, 'c10')
+    # svg_inline histories
+    hist = []
+    for _ in range(6):
+        content, kw = str(rnd.randint(1, 9999)), dict(version=rnd.choice([1, 2, 'M2', 5]))
+        hist += [(content, kw, dict(encoding=None)), (content, kw, {}), (str(rnd.randint(1, 99)), kw, dict(scale=2, dark='navy')),
+                 (content, kw, dict(scale=0)), (content, kw, dict(border=0))]
+    here = _inline_hist(hist)
+    with multiprocessing.get_context('fork').Pool(6, maxtasksperchild=1) as pool:
+        alone = pool.map(_inline_one, hist, chunksize=1)
+    for k, (h, a, b) in enumerate(zip(hist, here, alone)):
+        res.evaluations += 1
+        if a != b:
+            res.violations.append(dict(property_field='c10', verdict='svg_inline-depends-on-earlier-calls', call=f'segno.make({h[0]!r}, **{h[1]!r}).svg_inline(**{h[2]!r})  [call {k} of a history]',
+                                       replay=dict(history=[repr(x) for x in hist[:k + 1]][-6:]), known_id=None))
+    res.count('multicolour-svg-documents', len(cases))
 
 
 def first_diff(a, b, sep=','):
